@@ -3,7 +3,10 @@ from __future__ import annotations
 
 INTS = ["a", "b", "c", "d"]
 BOOLS = ["p", "q"]
-BIN = {"add": "+", "sub": "-", "mul": "*"}
+BIN = {"add": "+", "sub": "-", "mul": "*", "band": "&", "bor": "|", "bxor": "^", "fdiv": "//", "fmod": "%"}
+BIT = ["band", "bor", "bxor"]
+DIV = ["fdiv", "fmod"]
+ARITH = [k for k in BIN if k not in DIV]
 CMP = {"lt": "<", "le": "<=", "gt": ">", "ge": ">=", "eq": "==", "ne": "!="}
 
 
@@ -18,13 +21,41 @@ class G:
         self.counters = 0
 
     # ---- expressions: ('i',n) ('b',bool) ('v',x) ('bin',op,a,b) ('neg',a) ('cmp',op,a,b) ('and',a,b) ('or',a,b) ('not',a) ('ite',c,a,b)
+    #                   ('abs',a) ('min',[a,b,...]) ('max',[a,b,...])  (two or more int-typed arguments; the model is sent the left fold)
+    def divisor(self, d, names):
+        """divisor of `//` / `%`: mostly a small positive literal or a positive-valued expression (there C's `/`, `%` agree with Python's
+        whenever the dividend is non-negative); a negative literal or an arbitrary name now and then (signed case, K01b/K01c);
+        a deliberate small share of zero divisors (CPython raises ZeroDivisionError)"""
+        r = self.rng
+        x = r.random()
+        if x < 0.62:
+            return ("i", r.randint(1, 9))
+        if x < 0.84:
+            return ("bin", "add", ("abs", self.int_expr(d - 1, names)), ("i", r.randint(1, 4)))
+        if x < 0.92:
+            return ("neg", ("i", r.randint(1, 5)))
+        if x < 0.985 and names:
+            return ("bin", "bor", ("v", r.choice(names)), ("i", 1)) if r.random() < 0.7 else ("v", r.choice(names))
+        return ("i", 0)
+
     def int_expr(self, d, names):
         r = self.rng
         if d <= 0 or r.random() < 0.3:
             return r.choice([("i", r.randint(0, 9)), ("v", r.choice(names))]) if names else ("i", r.randint(0, 9))
-        k = r.choice(["bin", "bin", "bin", "neg", "ite", "leaf"])
+        k = r.choice(["bin", "bin", "bin", "neg", "ite", "leaf", "bbit", "abs", "mm", "div", "div"])
+        if k == "div":
+            return ("bin", r.choice(DIV), self.int_expr(d - 1, names), self.divisor(d, names))
+        if k == "abs":
+            if r.random() < 0.15:
+                return ("abs", self.bool_expr(d - 1, names))      # abs(True) is the int 1 on both sides
+            return ("abs", self.int_expr(d - 1, names))
+        if k == "mm":
+            return (r.choice(["min", "max"]), [self.int_expr(d - 1, names) for _ in range(r.choice([2, 2, 2, 3]))])
         if k == "bin":
-            return ("bin", r.choice(list(BIN)), self.int_expr(d - 1, names), self.int_expr(d - 1, names))
+            return ("bin", r.choice(ARITH), self.int_expr(d - 1, names), self.int_expr(d - 1, names))
+        if k == "bbit":
+            # `& | ^` of two bools is a bool in Python and an int in C++: used as an operand of arithmetic, where both are the int
+            return ("bin", r.choice(["add", "sub", "mul"]), ("bin", r.choice(BIT), self.bool_expr(d - 1, names), self.bool_expr(d - 1, names)), self.int_expr(d - 1, names))
         if k == "neg":
             return ("neg", self.int_expr(d - 1, names))
         if k == "ite":
@@ -38,7 +69,7 @@ class G:
             if bnames and r.random() < 0.5:
                 return ("v", r.choice(bnames))
             return ("cmp", r.choice(list(CMP)), self.int_expr(0, names), self.int_expr(0, names))
-        k = r.choice(["cmp", "cmp", "and", "or", "not", "lit"] + (["chain"] * 6 if self.chains else []))
+        k = r.choice(["cmp", "cmp", "and", "or", "not", "lit", "nbit"] + (["chain"] * 6 if self.chains else []))
         inames = [n for n in names if n not in BOOLS]
         if k == "chain":
             return ("chain", r.choice(list(CMP)), r.choice(list(CMP)), self.int_expr(d - 1, inames), self.int_expr(d - 1, inames), self.int_expr(d - 1, inames))
@@ -48,6 +79,8 @@ class G:
             return (k, self.bool_expr(d - 1, names), self.bool_expr(d - 1, names))
         if k == "not":
             return ("not", self.bool_expr(d - 1, names))
+        if k == "nbit":
+            return ("not", ("bin", r.choice(BIT), self.bool_expr(d - 1, names), self.bool_expr(d - 1, names)))
         return ("b", r.random() < 0.5)
 
     # ---- statements
@@ -73,11 +106,14 @@ class G:
                 return ("as", r.choice(bnames), self.bool_expr(2, names))
             return ("as", r.choice(inames), self.int_expr(2, inames))
         if k == "aug":
-            return ("aug", r.choice(inames), r.choice(list(BIN)), self.int_expr(1, inames))
+            op = r.choice(list(BIN))
+            return ("aug", r.choice(inames), op, self.divisor(1, inames) if op in DIV else self.int_expr(1, inames))
         if k == "wr":
             return ("wr", self.int_expr(2, inames))
         if k == "sl":
-            return ("sl", r.choice([("i", r.randint(0, 50)), ("bin", "mul", ("i", r.randint(0, 9)), ("i", 10)), ("bin", "add", ("v", r.choice(inames)), ("i", 0)) if False else ("i", 5)]))
+            return ("sl", r.choice([("i", r.randint(0, 50)), ("bin", "mul", ("i", r.randint(0, 9)), ("i", 10)), ("i", 5),
+                                    ("abs", ("neg", ("i", r.randint(0, 30)))), ("max", [("i", r.randint(0, 9)), ("bin", "band", ("i", r.randint(0, 40)), ("i", 12))]),
+                                    ("bin", "fdiv", ("i", r.randint(0, 90)), ("i", r.randint(1, 9))), ("bin", "fmod", ("i", r.randint(0, 90)), ("i", r.randint(1, 9)))]))
         if k == "if":
             els = []
             rr = r.random()
@@ -95,7 +131,9 @@ class G:
         if k == "for":
             self.loopvars += 1
             iv = f"i{self.loopvars}"
-            cnt = r.choice([("i", r.randint(0, 4)), ("bin", "add", ("i", 1), ("i", r.randint(0, 2))), ("v", "lim")])
+            cnt = r.choice([("i", r.randint(0, 4)), ("bin", "add", ("i", 1), ("i", r.randint(0, 2))), ("v", "lim"),
+                            ("min", [("i", r.randint(0, 4)), ("i", 3)]), ("min", [("v", "lim"), ("i", 2)]),
+                            ("bin", "fdiv", ("i", r.randint(0, 9)), ("i", 3)), ("bin", "fmod", ("v", "lim"), ("i", 3))])
             body = self.block(d - 1, names, True, r.randint(1, 3))
             if r.random() < 0.6:
                 body.append(("wr", ("bin", "add", ("v", iv), ("i", 0))))
@@ -168,7 +206,12 @@ class G:
             if n in BOOLS:
                 pre.append(("as", n, r.choice([("b", True), ("b", False), ("cmp", "lt", ("i", r.randint(0, 5)), ("i", 3))])))
             else:
-                pre.append(("as", n, r.choice([("i", r.randint(0, 9)), ("bin", "add", ("i", 2), ("i", r.randint(0, 5))), ("neg", ("i", r.randint(1, 5)))])))
+                pre.append(("as", n, r.choice([("i", r.randint(0, 9)), ("bin", "add", ("i", 2), ("i", r.randint(0, 5))), ("neg", ("i", r.randint(1, 5))),
+                                               ("abs", ("neg", ("i", r.randint(0, 9)))), ("max", [("i", r.randint(0, 9)), ("neg", ("i", 3)), ("i", 4)]),
+                                               ("bin", r.choice(BIT), ("neg", ("i", r.randint(1, 9))), ("i", r.randint(0, 15))),
+                                               ("bin", r.choice(DIV), ("i", r.randint(0, 50)), ("i", r.randint(1, 7)))])))
+                if r.random() < 0.05:     # a constant initialiser on which C's `/`, `%` differ from Python's (K01b/K01c in a global declaration)
+                    pre[-1] = ("as", n, ("bin", r.choice(DIV), ("neg", ("i", r.randint(1, 9))), ("i", r.randint(2, 4))))
         pre.append(("as", "lim", ("i", r.randint(0, 3))))
         if self.promote:
             body_pre = []
@@ -220,6 +263,8 @@ def py_expr(e):
     if k in ("and", "or"): return f"({py_expr(e[1])} {k} {py_expr(e[2])})"
     if k == "not": return f"(not {py_expr(e[1])})"
     if k == "ite": return f"({py_expr(e[2])} if {py_expr(e[1])} else {py_expr(e[3])})"
+    if k == "abs": return f"abs({py_expr(e[1])})"
+    if k in ("min", "max"): return f"{k}({', '.join(py_expr(a) for a in e[1])})"
     if k == "raw": return e[1]
     raise ValueError(e)
 
@@ -282,6 +327,12 @@ def sx_expr(e):
     if k in ("and", "or"): return f"({k} {sx_expr(e[1])} {sx_expr(e[2])})"
     if k == "not": return f"(not {sx_expr(e[1])})"
     if k == "ite": return f"(ite {sx_expr(e[1])} {sx_expr(e[2])} {sx_expr(e[3])})"
+    if k == "abs": return f"(abs {sx_expr(e[1])})"
+    if k in ("min", "max"):
+        acc = sx_expr(e[1][0])
+        for a in e[1][1:]:
+            acc = f"({k} {acc} {sx_expr(a)})"
+        return acc
     raise ValueError(e)
 
 
